@@ -58,6 +58,17 @@ def run_ineq(chk, case, rs, frags):
             chk.violation("ineq:value:" + tag, "calc_proj_ineq_constraint: spectrum %s, exact clipping %s (off-fragment %.2g)" % (np.round(got, 6), want, off), case)
         if not np.array_equal(stacked(obj), before):
             chk.violation("ineq:mutation:" + tag, "calc_proj_ineq_constraint modified its operand", case)
+        # positive homogeneity (MC_C04!IneqHomogeneous) with non-default, mutually different tolerances on the object:
+        # the stopping threshold of the physical projection and the truncation tolerance play no role in a single clipping
+        for c_ in (1e-3, 1e2):
+            try:
+                o2 = fr.build(c_ * u, eps_proj_physical=1e-2, eps_truncate_imaginary_part=1e-11 * max(c_, 1.0))
+                g2, off2 = fr.read(o2.calc_proj_ineq_constraint())
+                if not coords.close(g2, c_ * want, 1e-10 * max(c_, 1e-2)) or off2 > 1e-8 * max(c_, 1.0):
+                    chk.violation("ineq:scaled:" + tag, "calc_proj_ineq_constraint of the input scaled by %g (object built with eps_proj_physical=1e-2): spectrum %s, exact clipping %s"
+                                  % (c_, g2, c_ * want), case)
+            except Exception as e:
+                chk.violation("ineq:scaled:exception:" + tag, "scale %g: %r" % (c_, e), case)
         # variable-level, flag off: var = stacked vector
         cls = type(obj)
         v = before.copy()
